@@ -134,7 +134,7 @@ def run_case(case):
                 break
             time.sleep(0.01)
         else:
-            raise runner.HarnessError('no leader within 30 s of real time on an idle machine?')
+            return Result(nontrivial=False, classes=['inconclusive:no-leader-within-30s-real-time'], violation=None, sample=None)
         cid_counter = [0]
 
         def worker(tid, plan):
@@ -167,7 +167,7 @@ def run_case(case):
         for t in threads:
             t.join(120)
         if any(t.is_alive() for t in threads):
-            raise runner.HarnessError('caller threads did not finish within 120 s')
+            return Result(nontrivial=False, classes=['inconclusive:caller-threads-still-running-after-120s'], violation=None, sample=None)
         # quiesce: all replicas applied the same number of commands and nothing changes any more
         last, stable, t0 = None, 0, time.time()
         while time.time() - t0 < 30:
